@@ -136,6 +136,7 @@ CONTROLS = {
     "C03": [
         ("O1: join of the WAL writeout task neutralised", [("nomt::bitbox::SyncController::wait_pre_meta", neutralise_call("task::join_task", 1))], "O1|"),
         ("O7: sync_seqn comparison operand replaced", [("nomt::bitbox::recover", neutralise_call("WalBlobReader::sync_seqn"))], "O7|"),
+        ("O13: the WAL Clear entry of prepare_sync neutralised", [("nomt::bitbox::DB::prepare_sync", neutralise_call("WalBlobBuilder::write_clear"))], "O13|"),
     ],
     "C04": [
         ("O2: fsync of the WAL neutralised", [("nomt::bitbox::writeout::write_wal", neutralise_call("File::sync_all"))], "O2|"),
